@@ -161,10 +161,13 @@ def make_mesh_contracts(name):
         if qb == 1:
             cx.call(moved.aabb)
         elif qb == 2:
-            d0 = cx.vec("d0") if sym(cx) else np.array([cx.rng.gauss(0, 1) for _ in range(3)])
+            # an earlier support query: its only lasting effect is the cached start vertex (any referenced vertex)
             if sym(cx):
-                cx.assume(sq(d0) > 0, "nonzero:d0")
-            cx.call(moved.support_function, d0)
+                refs = _referenced(name)
+                moved._support_function.first_idx = refs[cx.choice(len(refs), "history:first_idx")]
+            else:
+                d0 = np.array([cx.rng.gauss(0, 1) for _ in range(3)])
+                cx.call(moved.support_function, np.ascontiguousarray(d0))
         pose_arg = np.ascontiguousarray(np.array(T, dtype=T.dtype))
         cx.call(moved.update_pose, pose_arg)
         q = cx.choice(4, "query_after")
